@@ -8,12 +8,22 @@ pub mod sym;
 
 pub mod util;
 pub mod world;
+pub mod wfile;
 pub mod c01_tree;
 pub mod c03_filters;
 pub mod c06_triggers;
 pub mod c07_window;
 pub mod c13_names;
 pub mod c16_time;
+pub mod c04_file;
+pub mod c05_rolling;
+pub mod c09_pattern;
+pub mod c10_width;
+pub mod c11_safe;
+pub mod c12_json;
+pub mod c13_builder;
+pub mod c15_swap;
+pub mod c18_console;
 pub mod c18_ansi;
 pub mod c19_env;
 pub mod c20_literals;
@@ -24,12 +34,22 @@ pub fn tables() -> Vec<(&'static str, &'static [(&'static str, fn())])> {
     vec![
         ("selftest", selftest::TABLE),
         ("probe", probe::TABLE),
+        ("probe::bisect", probe::bisect::TABLE),
         ("c01_tree", c01_tree::TABLE),
         ("c03_filters", c03_filters::TABLE),
         ("c06_triggers", c06_triggers::TABLE),
         ("c07_window", c07_window::TABLE),
         ("c13_names", c13_names::TABLE),
         ("c16_time", c16_time::TABLE),
+        ("c04_file", c04_file::TABLE),
+        ("c05_rolling", c05_rolling::TABLE),
+        ("c09_pattern", c09_pattern::TABLE),
+        ("c10_width", c10_width::TABLE),
+        ("c11_safe", c11_safe::TABLE),
+        ("c12_json", c12_json::TABLE),
+        ("c13_builder", c13_builder::TABLE),
+        ("c15_swap", c15_swap::TABLE),
+        ("c18_console", c18_console::TABLE),
         ("c18_ansi", c18_ansi::TABLE),
         ("c19_env", c19_env::TABLE),
         ("c20_literals", c20_literals::TABLE),
